@@ -191,11 +191,11 @@ impl Property for C02 {
         let q = tier == Tier::Quick;
         let n = |a: u64, b: u64| if q { a } else { b };
         vec![
-            Family { name: "adversarial", kind: FamilyKind::Random { cases: n(12_000, 300_000), max_len: 400 } },
-            Family { name: "adversarial_triggers", kind: FamilyKind::Random { cases: n(1_500, 30_000), max_len: 400 } },
-            Family { name: "depth", kind: FamilyKind::Random { cases: n(600, 6_000), max_len: 8 } },
+            Family { name: "adversarial", kind: FamilyKind::Random { cases: n(50_000, 500_000), max_len: 400 } },
+            Family { name: "adversarial_triggers", kind: FamilyKind::Random { cases: n(5_000, 50_000), max_len: 400 } },
+            Family { name: "depth", kind: FamilyKind::Random { cases: n(2_000, 10_000), max_len: 8 } },
             Family { name: "depth_triggers", kind: FamilyKind::Random { cases: n(100, 1_000), max_len: 8 } },
-            Family { name: "illtyped", kind: FamilyKind::Random { cases: n(6_000, 100_000), max_len: 700 } },
+            Family { name: "illtyped", kind: FamilyKind::Random { cases: n(25_000, 200_000), max_len: 700 } },
         ]
     }
 
